@@ -68,6 +68,16 @@ def run(eng, p):
                     ok, why = False, ("neighbors of %s" % v, list(nd.neighbors))
                 if sorted(cg.neighbors(v)) != sorted(shares[v]):
                     ok, why = False, ("graph.neighbors(%s)" % v, list(cg.neighbors(v)))
+            if ok:
+                # the graph's links: one per constraint (also for constraints sharing their scope), each listed by its nodes
+                glinks = list(cg.links)
+                got = sorted((getattr(l, "name", None), tuple(sorted(l.nodes))) for l in glinks)
+                want = sorted((c, tuple(sorted(sc))) for c, sc in scopes.items())
+                if got != want:
+                    ok, why = False, ("graph.links", got)
+                for v in names:
+                    if ok and any(l not in glinks for l in nodes[v].links):
+                        ok, why = False, ("a link of node %s is not in graph.links" % v, None)
             eng.prove(ok, "constraints hyper-graph does not mirror the DCOP", detail=str((why, scopes)))
         elif p["graph"] == "factor":
             import pydcop.computations_graph.factor_graph as g
